@@ -46,25 +46,25 @@ CHECKS = {
          "For every build the eviction premise is observed (hook H2); eviction-free builds must have no duplicate nodes and sets must hit the minimal acyclic DFA size; every build obeys the trie bound; corpora sharing ratio > 0.5.",
          "Equivalence is checked as identical node content over already-deduplicated targets. Corpora clause is three fixed evaluations.", "DESIGN.md section 5 C12"),
  "C16": (MC, "explicit-state enumeration of all strictly monotone maps of small universes x all query values vs inverse of the model",
-         "Every key set (<=5/7 keys) x every strictly increasing assignment from a small range plus boundary/MAX assignments; get_key/get_key_into for all values around the stored ones.",
+         "Every key set (<=5/7 keys) x every strictly increasing assignment from a small range plus boundary/MAX assignments; get_key/get_key_into (fresh, pre-filled and arena buffers) for all values around the stored ones.",
          "Buffer content after a false return is unspecified.", "DESIGN.md section 5 C16"),
  "C17": (MC, "exhaustive enumeration of all (q,d,k) over an 8-character mixed-width alphabet vs Wagner-Fischer on scalar values; all state limits 0..N+2",
-         "All queries |q|<=3, d<=2, all keys |k|<=4 (thorough 5) through the real DFA, plus Set/Map searches and complement/starts_with, plus the state-limit clause via hook H4.",
+         "All queries |q|<=3, d<=2, all keys |k|<=4 (thorough 5) through the real DFA, plus Set/Map searches and complement/starts_with, plus the state-limit clause via hook H4, plus a finite family of large automata (up to >130000 states behind new_with_limit) against systematic keys 0..5 edits away.",
          "Edit distance without transpositions.", "DESIGN.md section 5 C17"),
  "C18": (MC, "bounded exhaustive enumeration of combinator expressions over real types x all strings up to the pumping bound vs explicit product DFA",
-         "About 10^6 expressions built from the real StartsWith/Complement/Union/Intersection types over leaves with every sound hint assignment; is_match equality and hint soundness for every string up to min(n+1, cap).",
+         "About 10^6 expressions built from the real StartsWith/Complement/Union/Intersection types over leaves with every sound hint assignment; is_match equality and hint soundness for every string up to min(n+1, cap); operands also passed by reference; a finite family of long / non-ASCII Str and Subsequence patterns against their definitions.",
          "Strings, not implementation states, are enumerated because state types are opaque.", "DESIGN.md section 5 C18"),
  "C20": ("exploration", "boundary-value grid of headers/footers for lengths 0..64 + all truncations/single-byte mutations of small FSTs under catch_unwind; forbid(unsafe_code) lint",
-         "No panic from open + metadata + verify on ~18M untrusted byte strings (overflow checks on); the library compiles under -F unsafe_code.",
+         "No panic from open + metadata + verify on ~20M untrusted byte strings (overflow checks on), including files of the independent reference encoder in versions 1-3 relabelled to every other version, truncated, and mutated with the checksum recomputed (reaching the code behind the checksum test); the library compiles under -F unsafe_code.",
          "The unsafe clause is a compiler lint, not model checking. Later operations on garbage may panic by the property's wording.", "DESIGN.md section 5 C20"),
  "C13": ("exploration", "invariant on the builder's live heap (counting allocator) checked in every state of exhaustively enumerated small scopes under tiny cache geometries + finite N ladder",
          "After and at the peak during every insert of every history of the small scopes the builder's live heap stays under a bound without any term in the number of keys; four ladders N = 1e4..4e5 (thorough 1e7): fixed-length keys, alternating key lengths, prefix pairs, and distinct wide nodes (fan-out 40), with plateau assertions for small caches. The asymptotic 'for all N' clause is not decided by a bounded exploration.",
          "Bound formula B(rows,cols,F,L) is the harness's reading of 'a constant determined by cache geometry, fan-out and key length'. The ladder is a finite family, not an enumeration.", "DESIGN.md section 5 C13"),
  "C14": ("exploration", "zero-allocation and live-heap invariants (counting allocator) checked at every next() of every traversal/set operation of exhaustively enumerated small scopes + finite N ladder",
-         "Open and lookups on borrowed bytes allocate nothing; live heap after every next() of stream/range/search and of k-way set operations is bounded by a function of L and k only; ladder N = 1e4, 1e5 (thorough 1e6) over partially overlapping, identical and disjoint inputs shows identical extra heap.",
+         "Open and lookups on borrowed bytes allocate nothing; live heap after every next() of stream/range/search and of k-way set operations is bounded by a function of L and k only; ladder N = 1e4, 1e5 (thorough 1e6) over partially overlapping, identical and disjoint inputs shows identical extra heap, on a narrow ladder and on a wide-node ladder (dense root, N/40 distinct wide nodes, up to 655360 keys).",
          "'for all N' beyond the ladder is not decided.", "DESIGN.md section 5 C14"),
  "C15": (MC, "byte equality over all front ends for the enumerated sequences + exhaustive call-level interleavings of 2-3 concurrent builders + digests across threads and processes",
-         "All 17 front ends and 4 sinks give identical bytes (also under evicting cache geometries); every multiset permutation of the API calls of two (three) builders leaves each builder's output equal to its solo run; whole-scope digest equal on 8 threads and in 4 processes.",
+         "All 17 front ends and 4 sinks give identical bytes (also under evicting cache geometries; also a bulk-load size ladder of 1..400004 items, thorough 3.3 million, through every bulk entry point); every multiset permutation of the API calls of two (three) builders leaves each builder's output equal to its solo run; whole-scope digest equal on 8 threads and in 4 processes.",
          "No synchronisation exists in the library (scanned), so a controlled thread scheduler would be vacuous; threads/processes part is a repetition, not an enumeration.", "DESIGN.md section 5 C15"),
  "C19": (MC, "stateful exhaustive exploration of all channel-level schedules of the real merge pipeline (controlled scheduler, happens-before state caching) x configuration grid vs merge model",
          "The real cmd::map/set::run runs in-process under a controlled scheduler (hook H5): all interleavings of listed configurations (up to 3 batches / 2-3 workers / 2 generations) are explored; every complete execution must give a verifiable FST equal to the model merge and byte-identical across schedules; grid of all small inputs x batch/fd/threads/mode and a many-batches family (5..24 batches) under the default schedule, and the free-running real binary. A TLA+ model of one pipeline round (model/MergeRound.tla) is bound to the code by outcome conformance (for every explored round the set of result orders reachable in the model, from TLC's state dump, equals the set observed in the code) and is then model-checked with TLC for larger rounds (deadlock freedom, nothing lost or duplicated).",
